@@ -44,6 +44,8 @@ type obs struct {
 	closers                                  []func()
 	dones                                    []func() <-chan struct{}
 	doneAfterClose                           []bool
+	afterStop                                []func() // reads issued once the base has shut down
+	readsAfterStop                           string
 	release                                  chan struct{}
 	stalled                                  []string
 	stalledClosed                            bool
@@ -82,6 +84,11 @@ func runUntyped(base kcache.Controller, o *obs) {
 			l, _ := sub.Cache().List()
 			o.subList = hx.ListString(l)
 			o.subReady = hx.IsClosed(sub.Ready())
+		})
+		o.afterStop = append(o.afterStop, func() {
+			_, err := sub.Cache().Get("ns", "a")
+			_, err2 := sub.Cache().List()
+			o.readsAfterStop = fmt.Sprintf("Get: %v; List: %v", err, err2)
 		})
 	}
 	if fs, err := base.SubscribeWithFilter(hx.MkFilter(2)); err != nil {
@@ -229,6 +236,16 @@ func (in *inst) run() {
 			o.doneAfterClose = append(o.doneAfterClose, hx.IsClosed(d()))
 		}
 	}
+	// the bases shut down: reads of a typed cache answer like reads of the untyped one (ErrNotRunning, not "absent")
+	for _, b := range bases {
+		b.Stop()
+	}
+	vs.SleepIdle(time.Duration(1))
+	for _, o := range []*obs{&in.typed, &in.untyped} {
+		for _, f := range o.afterStop {
+			f()
+		}
+	}
 	in.finished = true
 }
 
@@ -309,6 +326,9 @@ func (in *inst) check(r *vs.Result) []string {
 	}
 	if fmt.Sprint(t.doneAfterClose) != fmt.Sprint(u.doneAfterClose) {
 		msgs = append(msgs, fmt.Sprintf("typed lifecycle differs | %s: Done() after Close typed %v untyped %v", n, t.doneAfterClose, u.doneAfterClose))
+	}
+	if t.readsAfterStop != u.readsAfterStop {
+		msgs = append(msgs, fmt.Sprintf("typed cache reads after shutdown differ | %s: typed {%s}, untyped {%s}", n, t.readsAfterStop, u.readsAfterStop))
 	}
 	return msgs
 }
